@@ -3,8 +3,10 @@ EXTENDS Alloc
 MCGrid == {<<0,1>>, <<1,1>>, <<2,1>>, <<5,1>>}
 MCInitials2 == {<<<<1,1>>, <<2,1>>>>, <<<<2,1>>, <<2,1>>>>, <<<<0,1>>, <<5,1>>>>}
 MCInitials3 == {<<<<1,1>>, <<2,1>>, <<3,1>>>>, <<<<0,1>>, <<5,1>>, <<1,1>>>>}
+MCInitials1 == {<<<<1,1>>>>, <<<<0,1>>>>, <<<<5,1>>>>}
+MCInitialsAny == [1..NProg -> MCGrid]          \* many programs: initial allocations are sampled from the whole grid
 MCTotals == {NoTotal, <<3,1>>, <<6,1>>, <<0,1>>}
 MCFactors == {<<1,1>>, <<3,2>>}
-MCBoundPairs == {<<<<0,1>>, INF>>, <<<<0,1>>, <<2,1>>>>, <<<<1,1>>, <<1,1>>>>, <<<<1,2>>, <<2,1>>>>, <<<<0,1>>, <<1,2>>>>}
-MCBoundPairsSmall == {<<<<0,1>>, INF>>, <<<<1,1>>, <<1,1>>>>, <<<<1,2>>, <<2,1>>>>}
+MCBoundPairs == {<<<<0,1>>, INF>>, <<<<1,2>>, INF>>, <<<<0,1>>, <<2,1>>>>, <<<<1,1>>, <<1,1>>>>, <<<<1,2>>, <<2,1>>>>, <<<<0,1>>, <<1,2>>>>}
+MCBoundPairsSmall == {<<<<0,1>>, INF>>, <<<<1,2>>, INF>>, <<<<1,1>>, <<1,1>>>>, <<<<1,2>>, <<2,1>>>>}
 ====
